@@ -260,3 +260,68 @@ def last_component_guarded(R, oid, cx):
                     R.fail(oid, inst, cx.qual, x, f'the last component of `{var}` is read without checking that the name is not empty: '
                            'the empty name raises IndexError instead of being matched', site(cx, x))
     return n_acc
+
+
+def merge_key_rule(R, oid):
+    """RuleChain.pattern_movement returns (tag, encoded constraints, key text); chains that agree on the key share one trie edge and
+    only the first chain's constraints are kept. The key must therefore spell out everything that is stored in the encoded
+    constraints: every value written into an encoded option / argument also goes into the key in the same branch, and every
+    nested list (options of a constraint, arguments of a user function) is bracketed."""
+    import ast
+    from .common import ctx, site
+    from ..loader import AnalysisError, norm
+    P = R.P
+    cx = ctx(R, CP + '.Compiler.RuleChain.pattern_movement')
+    fn = cx.f.node
+    rets = [r for r in ast.walk(fn) if isinstance(r, ast.Return) and isinstance(r.value, ast.Tuple) and len(r.value.elts) == 3]
+    keys = {r.value.elts[2].id for r in rets if isinstance(r.value.elts[2], ast.Name)}
+    if len(keys) != 1:
+        raise AnalysisError('pattern_movement: the merge key is not one local returned as third element')
+    key = keys.pop()
+
+    def blocks(node):
+        for n in ast.walk(node):
+            for fld in ('body', 'orelse'):
+                b = getattr(n, fld, None)
+                if isinstance(b, list) and b and isinstance(b[0], ast.stmt):
+                    yield b
+
+    def is_key_add(s):
+        return isinstance(s, ast.AugAssign) and isinstance(s.target, ast.Name) and s.target.id == key and isinstance(s.op, ast.Add)
+    n_data = n_loops = 0
+    for b in blocks(fn):
+        for i, s in enumerate(b):
+            # A. data written into the encoded structure
+            if isinstance(s, ast.Assign) and len(s.targets) == 1 and isinstance(s.targets[0], ast.Attribute) \
+                    and ast.unparse(s.targets[0]).startswith('encoded_') and s.targets[0].attr in ('value', 'tag', 'fn_id'):
+                srcs = {ast.unparse(x) for x in ast.walk(s.value) if isinstance(x, ast.Attribute) and isinstance(x.value, ast.Name) and x.value.id in ('opt', 'arg')}
+                if not srcs:
+                    continue
+                n_data += 1
+                inst = f'{cx.qual} :: `{norm(s)}` is part of the key'
+                adds = [t for t in b if is_key_add(t) and any(ast.unparse(x) in srcs for x in ast.walk(t.value))]
+                if adds:
+                    R.ok(oid, inst, site(cx, s))
+                else:
+                    R.fail(oid, inst, cx.qual, s, f'{sorted(srcs)[0]} is stored in the encoded constraint but does not go into the key text `{key}`: two rule chains '
+                           'that differ only there are merged into one edge and the second one\'s constraint is lost', site(cx, s))
+            # B. nested lists are bracketed
+            if isinstance(s, ast.For) and ast.unparse(s.iter) in ('cons.options', 'opt.args') and any(
+                    isinstance(t, ast.Assign) and ast.unparse(t.targets[0]).startswith('encoded_') for t in ast.walk(s)):
+                n_loops += 1
+                inst = f'{cx.qual} :: items of `{ast.unparse(s.iter)}` are bracketed in the key'
+                before = [t for t in b[:i] if is_key_add(t)]
+                after = [t for t in b[i + 1:] if is_key_add(t)]
+
+                def last_const(t):
+                    cs = [x.value for x in ast.walk(t.value) if isinstance(x, ast.Constant) and isinstance(x.value, str)]
+                    return cs[-1] if cs else ''
+                opened = bool(before) and last_const(before[-1])[-1:] in '{(['
+                closed = bool(after) and isinstance(after[0].value, ast.Constant) and str(after[0].value.value)[:1] in '})]'
+                if opened and closed:
+                    R.ok(oid, inst, site(cx, s))
+                else:
+                    R.fail(oid, inst, cx.qual, s, f'the items of `{ast.unparse(s.iter)}` are not enclosed by an opening and a closing delimiter in the key: '
+                           'different groupings of the same items (two constraints vs one with two options; different argument lists) give the same key and are merged',
+                           site(cx, s))
+    R.need(n_data >= 5 and n_loops >= 2, f'pattern_movement: only {n_data} stored values / {n_loops} nested lists recognised')
